@@ -60,6 +60,7 @@ struct Run {
     dirty: Vec<u32>,
     api_panics: u64,
     api_panic_sample: Option<String>,
+    last_spec: HashMap<u8, Spec>,
     /// The database over the run's small zoneinfo directory, and which zone
     /// instance its cache currently holds for each name.
     db: Option<jiff::tz::TimeZoneDatabase>,
@@ -483,6 +484,13 @@ impl Env for NativeEnv {
         });
     }
 
+    fn last_spec(&mut self, me: u8, set: Option<&Spec>) -> Option<Spec> {
+        with_run(|r| match set {
+            Some(s) => r.last_spec.insert(me, s.clone()),
+            None => r.last_spec.get(&me).cloned(),
+        })
+    }
+
     fn db_get(&mut self, name: u8, case: u8) -> Option<(TimeZone, u32)> {
         let name = name % DB_NAMES.len() as u8;
         let db = with_run(|r| r.db.clone())?;
@@ -768,6 +776,7 @@ fn run_case(
     db_dir: std::path::PathBuf,
 ) -> SchedOutcome {
     alloc::reset_watches();
+    alloc::set_poison(case.poison_freed_memory);
     {
         let mut g = RUN.lock().unwrap_or_else(|e| e.into_inner());
         *g = Some(Run {
@@ -800,6 +809,7 @@ fn run_case(
             dirty: vec![],
             api_panics: 0,
             api_panic_sample: None,
+            last_spec: HashMap::new(),
             db: None,
             db_dir: db_dir.clone(),
             db_cached: HashMap::new(),
@@ -1071,6 +1081,9 @@ impl Prop for C20 {
             if nontrivial {
                 stats.add("runs.heap_zone_shared_by_2plus_handles", 1);
             }
+            if case.poison_freed_memory {
+                stats.add("runs.with_freed_memory_poisoned", 1);
+            }
             stats.add(
                 match case.threads.len() {
                     1 => "threads.1",
@@ -1147,7 +1160,7 @@ fn op_key(k: &str) -> &'static str {
     m!(
         "new", "clone", "drop", "move", "eq", "query", "into_zoned", "zoned_add",
         "zoned_with_tz", "extract_tz", "to_ambiguous", "resolve", "send", "recv",
-        "swap_shared", "crash", "make_derived", "use_derived", "db_get", "db_reset", "db_advance", "db_touch", "zoned_make", "zoned_mutate", "zoned_compare", "zoned_pair",
+        "swap_shared", "crash", "new_again", "make_derived", "use_derived", "db_get", "db_reset", "db_advance", "db_touch", "zoned_make", "zoned_mutate", "zoned_compare", "zoned_pair",
         "zoned_sweep", "zoned_span_rel", "tz_make", "amb_op"
     )
 }
